@@ -170,103 +170,154 @@ func frameNames(v *Verdict, key string, frames []string, msgs []any) {
 	}
 }
 
-// jsonTree converts decoded JSON into a tree comparable (through vtree `any` leaf equality) with a typed tree:
-// objects by member name, arrays, leaves as a:<json>.
-func jsonTree(x any, like any) any {
-	switch l := like.(type) {
-	case []any:
-		xa, ok := x.([]any)
-		if !ok {
-			return vtree.A(x)
-		}
-		out := make([]any, len(xa))
-		for i := range xa {
-			var li any
-			if i < len(l) {
-				li = l[i]
-			}
-			out[i] = jsonTree(xa[i], li)
-		}
-		return out
-	case map[string]any:
+// jsonToTree converts a decoded JSON value (numbers as json.Number) into a canonical tree following the
+// design type t: object members by attribute name (case/separator-insensitive, spelling is judged by
+// frameNames), numbers by the attribute's kind, base64 text for bytes. JSON that does not fit the type is
+// kept as an `any` leaf, which never equals a typed expectation.
+func jsonToTree(sp *spec.Spec, t *spec.Type, x any, depth int) any {
+	if x == nil {
+		return nil
+	}
+	rtp, _ := sp.Resolve(t)
+	if rtp == nil {
+		rtp = t
+	}
+	misfit := func() any { return vtree.A(plainJSON(x)) }
+	if rtp == nil || depth > 40 {
+		return misfit()
+	}
+	switch rtp.Kind {
+	case spec.Object:
 		xo, ok := x.(map[string]any)
 		if !ok {
-			return vtree.A(x)
-		}
-		if mm, isMap := vtree.IsMap(like); isMap {
-			// keys of the expected map are typed leaves: find the expected key whose text equals the JSON key
-			out := map[string]any{}
-			for k, e := range xo {
-				key := vtree.S(k)
-				var le any
-				for wk, we := range mm {
-					if cases.TextOf(wk) == k {
-						key, le = wk, we
-					}
-				}
-				out[key] = jsonTree(e, le)
-			}
-			return vtree.MkMap(out)
-		}
-		if alts, ok := l["$alt"].([]any); ok && len(alts) > 0 {
-			return jsonTree(x, alts[0])
+			return misfit()
 		}
 		out := map[string]any{}
 		for k, e := range xo {
 			if e == nil {
 				continue
 			}
-			out[spec.Norm(k)] = jsonTree(e, l[spec.Norm(k)])
-		}
-		return out
-	}
-	if x == nil {
-		return nil
-	}
-	if s, ok := like.(string); ok && vtree.Kind(s) == "y" {
-		if xs, ok := x.(string); ok {
-			return "y:" + xs
-		}
-	}
-	if _, isObj := x.(map[string]any); isObj {
-		if like == nil {
-			o := map[string]any{}
-			for k, e := range x.(map[string]any) {
-				if e != nil {
-					o[spec.Norm(k)] = jsonTree(e, nil)
+			var at *spec.Attr
+			for _, a := range rtp.Attrs {
+				if spec.Norm(a.Name) == spec.Norm(k) {
+					at = a
 				}
 			}
-			return o
-		}
-	}
-	if xa, isArr := x.([]any); isArr && like == nil {
-		out := make([]any, len(xa))
-		for i := range xa {
-			out[i] = jsonTree(xa[i], nil)
+			if at == nil {
+				out[spec.Norm(k)] = vtree.A(plainJSON(e)) // a member the design does not have
+				continue
+			}
+			out[spec.Norm(at.Name)] = jsonToTree(sp, at.Type, e, depth+1)
 		}
 		return out
+	case spec.Array:
+		xa, ok := x.([]any)
+		if !ok {
+			return misfit()
+		}
+		out := make([]any, len(xa))
+		for i := range xa {
+			out[i] = jsonToTree(sp, rtp.Elem.Type, xa[i], depth+1)
+		}
+		return out
+	case spec.Map:
+		xo, ok := x.(map[string]any)
+		if !ok {
+			return misfit()
+		}
+		out := map[string]any{}
+		for k, e := range xo {
+			// JSON object keys are strings: read the key back as the key type's kind
+			key := jsonToTree(sp, rtp.Key.Type, keyJSON(sp, rtp.Key.Type, k), depth+1)
+			ks, _ := key.(string)
+			out[ks] = jsonToTree(sp, rtp.Elem.Type, e, depth+1)
+		}
+		return vtree.MkMap(out)
+	case spec.Any:
+		return vtree.A(plainJSON(x))
+	case spec.Boolean:
+		if b, ok := x.(bool); ok {
+			return vtree.B(b)
+		}
+	case spec.String:
+		if v, ok := x.(string); ok {
+			return vtree.S(v)
+		}
+	case spec.Bytes:
+		if v, ok := x.(string); ok {
+			return "y:" + v
+		}
+	case spec.Int, spec.Int32, spec.Int64, spec.UInt, spec.UInt32, spec.UInt64:
+		if n, ok := x.(json.Number); ok && !strings.ContainsAny(n.String(), ".eE") {
+			if strings.HasPrefix(rtp.Kind, "uint") {
+				return "u:" + n.String()
+			}
+			return "i:" + n.String()
+		}
+	case spec.Float32:
+		if n, ok := x.(json.Number); ok {
+			return "f32:" + n.String()
+		}
+	case spec.Float64:
+		if n, ok := x.(json.Number); ok {
+			return "f:" + n.String()
+		}
 	}
-	return vtree.A(x)
+	return misfit()
 }
 
-// rawFrames parses the text frames a raw client read into trees shaped like the expected messages.
-func rawFrames(frames []string, want []any) ([]any, string) {
+// keyJSON reads a JSON object key as a JSON value of the map's key kind.
+func keyJSON(sp *spec.Spec, t *spec.Type, k string) any {
+	rtp, _ := sp.Resolve(t)
+	if rtp == nil {
+		rtp = t
+	}
+	switch {
+	case rtp.Kind == spec.Boolean:
+		return k == "true"
+	case spec.IsNumeric(rtp.Kind):
+		return json.Number(k)
+	}
+	return k
+}
+
+// plainJSON turns json.Number leaves into float64 so that the value marshals like encoding/json's default.
+func plainJSON(x any) any {
+	switch y := x.(type) {
+	case json.Number:
+		f, _ := y.Float64()
+		return f
+	case []any:
+		o := make([]any, len(y))
+		for i := range y {
+			o[i] = plainJSON(y[i])
+		}
+		return o
+	case map[string]any:
+		o := map[string]any{}
+		for k, e := range y {
+			o[k] = plainJSON(e)
+		}
+		return o
+	}
+	return x
+}
+
+// rawFrames parses the text frames a raw client read into trees following the message type.
+func rawFrames(sp *spec.Spec, t *spec.Type, frames []string) ([]any, string) {
 	var out []any
 	for i, f := range frames {
 		var x any
 		dec := json.NewDecoder(strings.NewReader(f))
+		dec.UseNumber()
 		if err := dec.Decode(&x); err != nil {
 			return out, fmt.Sprintf("frame #%d is not JSON: %s", i, trunc(f, 80))
 		}
-		var like any
-		if i < len(want) {
-			like = want[i]
+		tr := jsonToTree(sp, t, x, 0)
+		if tr == nil {
+			tr = map[string]any{}
 		}
-		t := jsonTree(x, like)
-		if t == nil {
-			t = map[string]any{}
-		}
-		out = append(out, t)
+		out = append(out, tr)
 	}
 	return out, ""
 }
@@ -321,14 +372,14 @@ func StreamC02(sp *spec.Spec, sv *spec.Service, m *spec.Method, ex *rt.Exchange,
 			}
 		}
 	}
-	if rec.SendErr != "" {
-		v.add(fmt.Sprintf("stream:%s:payloads:client-send-error:%s", m.Stream, errClass(rec.SendErr, "")), "the client's Send failed after %d of %d messages: %s", len(rec.ClientSent)+rec.RawSent, sent, trunc(rec.SendErr, 200))
-		return
-	}
 	want := expectSeq(sp, m.StreamP, sc.Send)
 	refused := ""
 	if rec.StubEnd != "eof" && rec.StubEnd != "count" && rec.StubEndName != "" {
 		refused = rec.StubEndName
+	}
+	if rec.SendErr != "" && refused == "" {
+		v.add(fmt.Sprintf("stream:%s:payloads:client-send-error:%s", m.Stream, errClass(rec.SendErr, "")), "the client's Send failed after %d of %d messages: %s", handed, sent, trunc(rec.SendErr, 200))
+		return
 	}
 	compareSeq(sp, v, m.Stream, "payloads", m.StreamP, tags, refused, want, rec.StubRecv)
 	// how the stub's reading ended: a client stream is read until io.EOF
@@ -397,7 +448,8 @@ func StreamC03(sp *spec.Spec, sv *spec.Service, m *spec.Method, ex *rt.Exchange)
 		v.Inconclusive = "the service's Recv failed before it could answer (C02)"
 		return v
 	}
-	if rec.StubSndErr != "" {
+	if rec.StubSndErr != "" && rec.RecvEndName == "" {
+		// (a Send that fails because the client refused an earlier message and hung up is judged below)
 		v.add(fmt.Sprintf("stream:%s:results:service-send-error:%s", kind, errClass(rec.StubSndErr, "")), "the service's Send failed after %d of %d messages: %s", len(rec.StubSent), len(oc.StreamResults), trunc(rec.StubSndErr, 200))
 		return v
 	}
@@ -407,7 +459,7 @@ func StreamC03(sp *spec.Spec, sv *spec.Service, m *spec.Method, ex *rt.Exchange)
 		v.add(fmt.Sprintf("stream:%s:handshake-status:want-101:got-%d", kind, rec.Handshake), "the service used the stream but the handshake was answered %d", rec.Handshake)
 		return v
 	}
-	if viewed && upgraded && m.Result.View == "" && kind != "client" && len(rec.StubSent) > 0 && ex.WireResp != nil {
+	if viewed && upgraded && m.Result.View == "" && len(rec.StubSent) > 0 && ex.WireResp != nil {
 		// the view the service chose travels in the goa-view header of the handshake response
 		gv, has := hdr(ex.WireResp.Header, "goa-view")
 		view := viewOf(m, oc)
@@ -475,7 +527,7 @@ func StreamC03(sp *spec.Spec, sv *spec.Service, m *spec.Method, ex *rt.Exchange)
 		got := rec.ClientRecv
 		if sc.RawClient {
 			var bad string
-			got, bad = rawFrames(rec.RawRecv, want)
+			got, bad = rawFrames(sp, m.Result.Type, rec.RawRecv)
 			if bad != "" {
 				v.add(fmt.Sprintf("stream:%s:results:frame-not-json", kind), "%s", bad)
 				return v
@@ -529,7 +581,7 @@ func StreamC03(sp *spec.Spec, sv *spec.Service, m *spec.Method, ex *rt.Exchange)
 				v.add("stream:client:final-result:lost", "the raw client read no frame carrying the final result (reading ended with %q)", trunc(rec.RecvEnd, 120))
 				return v
 			}
-			gs, bad := rawFrames(rec.RawRecv[:1], []any{want})
+			gs, bad := rawFrames(sp, m.Result.Type, rec.RawRecv[:1])
 			if bad != "" {
 				v.add("stream:client:results:frame-not-json", "%s", bad)
 				return v
